@@ -497,6 +497,27 @@ theorem c26_encode_check_is_source {M : Type} (max : Nat) (ser : M → List Nat)
   have h2 : ¬ ((ser m).length ≥ 4294967296) := by omega
   by_cases h1 : (ser m).length > max <;> simp [h1, h2]
 
+/-- Tie to the source text: the model's `decodeStep` **is** the Lean term `rs2lean` regenerates
+    from the current body of `Codec::decode` (result and buffer after the call) — the two length
+    comparisons, their order, the early returns and the `advance(4 + frame_len)`. Comparing
+    `4 + frame_len` with the maximum, `>=`, decoding before the frame is complete, advancing by
+    `frame_len` only … all change the generated term and break this theorem. -/
+theorem c26_decode_is_source {M : Type} (max : Nat) (de : List Nat → Option M) (buf : List Nat) :
+    decodeStep max de buf =
+      (match P2.Extracted.C26.decodeT Err.tooLarge Err.postcard fromBe32 max de buf with
+       | (.error e, _) => .error e
+       | (.ok none, _) => .ok none
+       | (.ok (some m), rest) => .ok (some (m, rest))) := by
+  unfold decodeStep P2.Extracted.C26.decodeT
+  by_cases h1 : buf.length < 4
+  · simp [h1]
+  · by_cases h2 : fromBe32 (buf.take 4) > max
+    · simp [h1, h2]
+    · by_cases h3 : buf.length < 4 + fromBe32 (buf.take 4)
+      · simp [h1, h2, h3]
+      · simp only [h1, h2, h3, if_false]
+        cases de ((buf.drop 4).take (fromBe32 (buf.take 4))) <;> rfl
+
 /-! ## Non-vacuity -/
 -- two payloads, chunked so that the first length prefix is split, with an empty chunk, and the
 -- second frame arriving together with the tail of the first
